@@ -251,13 +251,16 @@ fn command_go(
                 depth,
             );
 
+            // The flag is cleared before the move is announced: a GUI may answer
+            // bestmove at once and its next command must not be refused
+            search_is_running.store(false, Relaxed);
+
             if let Some(best_move) = best_move {
                 println!("bestmove {}", best_move.uci_notation());
             } else {
                 println!("bestmove none");
             }
 
-            search_is_running.store(false, Relaxed);
             *current_game = None;
         }
     });
